@@ -12,7 +12,7 @@ namespace sim {
 std::string data_dir()
 {
   const char * e = getenv("BXSIM_DATA");
-  return e ? e : "/verif/data";
+  return e ? std::string(e) : verif_dir() + "/data";
 }
 
 std::string ga_root() { return fs::root() + "/ga"; }
